@@ -147,7 +147,9 @@ def signature(rule: str, detail: Any, desc: dict) -> str:
     if rule in ("parameters-do-not-conform", "body-does-not-conform"):
         kws = sorted({k for ks in kw_detail(detail).values() for k in ks})
         feats = features(desc)
-        if kws and set(kws) <= {"maxLength", "minLength"} and "pattern+length" in feats:
+        if kws and set(kws) <= {"maxLength", "minLength"} and "pattern-group+length" in feats:
+            feat = "pattern-group+length"
+        elif kws and set(kws) <= {"maxLength", "minLength"} and "pattern+length" in feats:
             feat = "pattern+length"
         elif "props" in kws and "readOnly" in feats:
             feat = "readOnly"
@@ -237,7 +239,11 @@ def run(ctx: Ctx) -> Outcome:
 
     def jobs_for(d: dict) -> list[dict]:
         # the configuration group crosses two string restrictions in five locations: rare characters need more draws
-        return [{"desc": d, "mode": "positive", "modes": ["positive"], "n": 2 * n if d["group"] == "config" else n, "seed": ctx.seed}]
+        cfg = d.get("cfg") or {}
+        k = 1
+        if d["group"] == "config":      # a NUL / non-codec character in a short header value is a ~1 % event per value
+            k = 8 if (not cfg.get("allow_x00") and cfg.get("codec") != "utf-8") else 2
+        return [{"desc": d, "mode": "positive", "modes": ["positive"], "n": k * n, "seed": ctx.seed}]
 
     return run_property(ctx, "C01", "c01", jobs_for, str(n), signature,
                         "every operation descriptor reachable in GenData.tla family c01 (TLC-enumerated; exhaustive inside a location group, pairwise "
